@@ -28,7 +28,7 @@ func init() {
 		RequiredCounters: []string{"canonical_rejections", "canonical_acceptances", "buffer_snapshots"},
 		Assumptions:      []string{"math/big is the oracle for integer values of byte strings"},
 		Plan: func(tier string) []Child {
-			return shardsVar(pick(tier, 4, 12), Child{Flavour: "plain", NCPU: 1})
+			return plus386(shardsVar(pick(tier, 4, 12), Child{Flavour: "plain", NCPU: 1}), 0)
 		},
 		Run: runC16,
 	})
@@ -308,8 +308,11 @@ func c16decode(c *mon.Ctx, b []byte, cls string) {
 		c.Fail("wrong-value/spare-capacity", "decoding from a slice with spare capacity gives another value", nil)
 	}
 	// ReadScalar: exactly the first 32 bytes, canonical little-endian
-	for _, step := range []int{64, 1, 7, -13} {
+	for _, step := range []int{64, 1, 7, -13, 0} {
 		var rd io.Reader = &errReader{data: b, step: step}
+		if step == 0 {
+			rd = bytes.NewBuffer(b) // reads straight out of the caller's slice
+		}
 		if step < 0 {
 			// history: a non-canonical and a short read (both fail) come first; then this stream is delivered in two
 			// chunks and, between them, the reader itself reads another scalar and a point (two calls overlap)
@@ -352,6 +355,10 @@ func c16decode(c *mon.Ctx, b []byte, cls string) {
 			}
 		}
 		check(fmt.Sprintf("ReadScalar/chunk%d", step), nil, vLE)
+		if !bytes.Equal(b, snap) {
+			c.Fail("input-modified/ReadScalar", fmt.Sprintf("ReadScalar modified the bytes it read from (reader variant %d)", step), map[string]string{"buf": hx(snap)})
+			copy(b, snap)
+		}
 	}
 }
 
